@@ -26,6 +26,6 @@ r1=$(cargo test --offline --lib 2>&1 | grep -E "^test result|^error" | tail -1)
 r2=$(cargo test --offline $FEAT --test seed_demo 2>&1 | grep -E "^test result|^error" | tail -1)
 ok=1
 echo "$r1" | grep -q "98 passed; 0 failed" || ok=0
-echo "$r2" | grep -q "FAILED" || ok=0
+echo "$r2" | grep -q "FAILED\|error: test failed" || ok=0
 echo "$r3" | grep -q "ok\." || ok=0
 if [ $ok = 1 ]; then echo "CONFIRMED $ID"; else echo "NOT-CONFIRMED $ID | without: $r3 | suite: $r1 | with: $r2"; fi
